@@ -131,6 +131,28 @@ def _r062(ck, prog, cfg):
                 what = callee(cmd.term).rsplit("::", 1)[-1]
             elif cmd.kind == "agg":
                 what = cmd.rv["n"].rsplit("::", 1)[-1]
+            if cmd.kind in ("multi", "path") and cmd.local is not None and cmd.local > f.d["argc"] and not cmd.fields and len(f.defs().get(cmd.local, [])) >= 2:
+                # `let cmd = match .. { a => Command::setex(..), b => Command::set(..) }`: judge every alternative
+                alts = []
+                for (db, di, kind, payload) in f.defs().get(cmd.local, []):
+                    if kind == "call":
+                        from .lib import Src
+                        alts.append(Src("call", term=payload, site=(db, di), local=cmd.local))
+                    elif kind == "assign" and payload["k"] == "agg":
+                        from .lib import Src
+                        alts.append(Src("agg", rv=payload, site=(db, di), local=cmd.local))
+                    elif kind == "assign" and payload["k"] == "use":
+                        alts.append(src_of_operand(f, payload["a"], through_calls=TRANSPARENT))
+                judged = [(a, _can_fail(prog, f, a)) for a in alts]
+                bad_alts = [a for a, (fl, w) in judged if fl]
+                def _nm(a):
+                    return callee(a.term).rsplit("::", 1)[-1] if a.kind == "call" else (a.rv["n"].rsplit("::", 1)[-1] if a.kind == "agg" else a.path())
+                if alts and not bad_alts:
+                    ck.ok("R06.2", "%s:execute(%s)#%d%s" % (short, "|".join(sorted(_nm(a) for a in alts)), _ordx(f, b), _tag(cfg)), "no alternative can fail")
+                    continue
+                if bad_alts:
+                    what = "|".join(sorted(_nm(a) for a in bad_alts))
+                    cmd = bad_alts[0]
             fallible, why = _can_fail(prog, f, cmd)
             if not fallible:
                 ck.ok("R06.2", "%s:execute(%s)#%d%s" % (short, what, _ordx(f, b), _tag(cfg)), "cannot fail: " + why)
@@ -139,7 +161,7 @@ def _r062(ck, prog, cfg):
                      "the reply of the command that pushes merged replication state into the executor is thrown away: when it fails "
                      "(type change on the key -> WRONGTYPE; SETEX with 0 seconds) the node keeps serving what its replication state does "
                      "not say", f.where(t["ln"]), detail="result inspected")
-    ck.floor("R06.2" + _tag(cfg), n, 7)
+    ck.floor("R06.2" + _tag(cfg), n, 5)
 
 
 def _ctor_shape(prog, f, cmd):
